@@ -395,6 +395,8 @@ def generate(rng, idx, tier, variant):
                 vs = _good_vspec(rng, g, dt) if good else _vspec(rng, g, elem=dt)
                 if good and dt == 'int' and rng.random() < 0.3:
                     vs['e'] = 'bigint'  # integers that a detour through float64 would corrupt
+                elif good and vs['k'] == 'scalar' and dt in ('float', 'int') and rng.random() < 0.3:
+                    vs['e'] = dt + '01'  # 0 / 0.0 / False, 1 / 1.0 / True: equal values of different types (each its own dtype)
                 ops.append({'op': 'add_variable', 'obj': p, 'name': nm, 'value': vs, 'dtype': rng.choice([None, None, dt])})
                 if variant == 'copies' and rng.random() < 0.35:
                     ops[-1].update({'pool': rng.randrange(2), 'dtype': rng.choice([None, 'float']), 'value': {'k': 'seq', 'c': 'ndarray', 'len': 'n', 'e': 'float', 'base': 0}})
@@ -1145,6 +1147,10 @@ def execute(schedule, ctx):
                         got = d['_' + nm]
                         if dt is not None or default_dt is not None:
                             ctx.check('C09', 'add_variable/dtype-as-requested', got.dtype == new.dtype, {'got': str(got.dtype), 'want': str(new.dtype)})
+                        elif type(v) in (bool, int, float):
+                            # no dtype asked for: the series is created with the dtype of the value itself (an int makes
+                            # an integer series whatever equal-valued floats or booleans went before)
+                            ctx.check('C09', 'add_variable/dtype-of-the-scalar-given', got.dtype.kind == {bool: 'b', int: 'i', float: 'f'}[type(v)], {'got': str(got.dtype), 'value': repr(v)})
                         ctx.check('C09', 'add_variable/contents', got.shape == new.shape and RC.arrays_equal(got.astype(new.dtype), new), {'got': canon(got.tolist()), 'want': canon(new.tolist())})
                         ctx.check('C09', 'add_variable/appended-to-index', d['index'][-1] == nm and (('names' not in d) or d['names'][-1] == nm), {'index': list(d['index'])})
                     outcome = 'ok' if e is None else 'raised-good'
